@@ -29,7 +29,7 @@ def demo_dest(d):
     if not m:
         raise SystemExit("cannot find the demo's destination path in its header")
     dest = m.group(1).lstrip("/")
-    dest = re.sub(r"^tmp/mut-[A-Za-z0-9]+/", "", dest)
+    dest = re.sub(r"^tmp/mut[0-9]*-[A-Za-z0-9]+/", "", dest)
     return dest
 
 
